@@ -10,10 +10,11 @@ import (
 
 func init() {
 	register("C40", []string{"."}, runC40)
-	propExplain["C40"] = "Decides structural clauses of C40: every supported format major version has a migration entry and the entry for version K finalizes exactly K, on the nil-error edge of everything that precedes it; finalizeFormatVersUpgrade publishes the new version in memory only through the nil-error edge of the durable marker move; the in-memory version is stored only there and at Open; a ratchet refuses to go backwards before it runs any migration and steps from current+1. Does not decide data preservation by the non-trivial migrations."
+	propExplain["C40"] = "Decides structural clauses of C40: every supported format major version has a migration entry and the entry for version K finalizes exactly K, on the nil-error edge of everything that precedes it; finalizeFormatVersUpgrade publishes the new version in memory only through the nil-error edge of the durable marker move; the in-memory version is stored only there and at Open; a ratchet refuses to go backwards before it runs any migration and steps from current+1. Does not decide data preservation by the non-trivial migrations. (V1) the migration that marks tables for compaction derives the tables it names from the version read inside the UpdateVersionLocked closure (under the manifest lock), never from a version read before the lock was taken."
 }
 
 func runC40(c *Ctx) {
+	versionReadUnderManifestLock(c, "C40.V1", "p.(*DB).markFilesForCompactionLocked")
 	// C40.O1
 	if fn := c.Fn("C40.O1", "p.(*DB).finalizeFormatVersUpgrade"); fn != nil {
 		vers := c.Field("C40.O1", "p.DB.mu.formatVers.vers")
@@ -170,4 +171,132 @@ func runC40(c *Ctx) {
 		}
 	}
 	c.MinObs("C40.T1", 10)
+}
+
+// versionReadUnderManifestLock (added after seed C40-c): the functions listed by the callers build
+// a version edit that NAMES EXISTING TABLES / BLOB FILES of the current version (marks them,
+// replaces them, decides a target level from them). logLock releases DB.mu while it waits for an
+// in-flight MANIFEST write, so a version read before UpdateVersionLocked may be stale by the time
+// the edit is applied; the edit then names tables that no longer exist (and a later Open fails on
+// "unknown table … marked for compaction"). The instances were confirmed by reading and are frozen
+// by name; the rule per instance: (a) the closure passed to UpdateVersionLocked — or a static
+// callee of it, two levels — reads versionSet.currentVersion(); (b) nothing derived from a
+// currentVersion() call made OUTSIDE the closure in the same function is captured by the closure.
+func versionReadUnderManifestLock(c *Ctx, rule string, names ...string) {
+	cur := c.Fn(rule, "p.(*versionSet).currentVersion")
+	upd := c.Fn(rule, "p.(*versionSet).UpdateVersionLocked")
+	if cur == nil || upd == nil {
+		return
+	}
+	isCur := Pred("currentVersion()", func(in ssa.Instruction) bool {
+		cc := getCallCommon(in)
+		return cc != nil && cc.StaticCallee() == cur
+	})
+	var containsCur func(f *ssa.Function, d int, seen map[*ssa.Function]bool) bool
+	containsCur = func(f *ssa.Function, d int, seen map[*ssa.Function]bool) bool {
+		if seen[f] {
+			return false
+		}
+		seen[f] = true
+		if len(instrs(f, isCur)) > 0 {
+			return true
+		}
+		for _, a := range f.AnonFuncs {
+			if containsCur(a, d, seen) {
+				return true
+			}
+		}
+		if d >= 2 {
+			return false
+		}
+		for _, b := range f.Blocks {
+			for _, in := range b.Instrs {
+				if call, ok := in.(*ssa.Call); ok {
+					if cal := call.Common().StaticCallee(); cal != nil && inModule(cal) && len(cal.Blocks) > 0 && containsCur(cal, d+1, seen) {
+						return true
+					}
+				}
+			}
+		}
+		return false
+	}
+	for _, name := range names {
+		fn := c.Fn(rule, name)
+		if fn == nil {
+			continue
+		}
+		n := 0
+		for _, b := range fn.Blocks {
+			for _, in := range b.Instrs {
+				call, ok := in.(*ssa.Call)
+				if !ok || call.Common().StaticCallee() != upd {
+					continue
+				}
+				args := call.Common().Args
+				mc, ok := args[len(args)-1].(*ssa.MakeClosure)
+				if !ok {
+					c.Unresolved(rule, "UpdateVersionLocked in "+name+" is not passed a function literal")
+					continue
+				}
+				n++
+				clo := mc.Fn.(*ssa.Function)
+				okA := containsCur(clo, 0, map[*ssa.Function]bool{})
+				c.Ob(rule, fn, "the version this edit is derived from is read inside the UpdateVersionLocked closure", c.P.Pos(call.Pos()), okA,
+					map[bool]string{true: "", false: "the closure passed to UpdateVersionLocked no longer reads versionSet.currentVersion(): the edit is built from a version read before the manifest lock was taken, which a concurrent compaction may have replaced"}[okA])
+				// (b) forward taint from outside reads into the closure's bindings
+				bind := map[ssa.Value]bool{}
+				for _, bv := range mc.Bindings {
+					bind[bv] = true
+				}
+				for _, oc := range instrs(fn, isCur) {
+					tainted := map[ssa.Value]bool{}
+					var work []ssa.Value
+					push := func(v ssa.Value) {
+						if v != nil && !tainted[v] {
+							tainted[v] = true
+							work = append(work, v)
+						}
+					}
+					push(oc.(ssa.Value))
+					hit := false
+					for steps := 0; len(work) > 0 && steps < 4000; steps++ {
+						v := work[len(work)-1]
+						work = work[:len(work)-1]
+						if bind[v] {
+							hit = true
+							break
+						}
+						refs := v.Referrers()
+						if refs == nil {
+							continue
+						}
+						for _, r := range *refs {
+							switch x := r.(type) {
+							case *ssa.Store:
+								if x.Val == v {
+									// the cell (and the local it is part of) now holds tainted data
+									push(x.Addr)
+									if root := rootAlloc(x.Addr); root != nil {
+										push(root)
+									}
+								}
+							case *ssa.MakeClosure:
+								if x != mc {
+									continue
+								}
+								hit = true
+							case ssa.Value:
+								push(x)
+							}
+						}
+					}
+					c.Ob(rule, fn, "no version read before the manifest lock is captured by the UpdateVersionLocked closure", c.P.Pos(oc.Pos()), !hit,
+						map[bool]string{true: "", false: "a value derived from this currentVersion() call (made before UpdateVersionLocked took the manifest lock) is captured by the closure that builds the version edit"}[!hit])
+				}
+			}
+		}
+		if n == 0 {
+			c.Unresolved(rule, "no UpdateVersionLocked call with a closure found in "+name)
+		}
+	}
 }
